@@ -35,7 +35,13 @@ func init() {
 			"Not covered: the (ambiguous) treatment of top-level slices as outermost.",
 		Assume:  []string{"Go map lookup semantics"},
 		Trusted: []string{"go/types", "go/ssa"},
-		Run:     func(c *Ctx) { runC16(c); runC16More(c); runC16Delegate(c); sharedDeclaredRules(c); base(c, "STATE", "LOOP", "TEXT") },
+		Run: func(c *Ctx) {
+			runC16(c)
+			runC16More(c)
+			runC16Delegate(c)
+			sharedDeclaredRules(c)
+			base(c, "STATE", "LOOP", "TEXT")
+		},
 	})
 }
 
@@ -513,7 +519,6 @@ func runFieldIdentity(c *Ctx, rule string) {
 	c.Check(len(bad) == 0 && n > 0, rule, "(*valid.VStruct).validate", "field-identity", token.NoPos, fmt.Sprintf("%d uses of a field value, all read at the entry's own offset", n), uniqJoin(append(bad, fmt.Sprintf("%d uses", n)), 3))
 }
 
-
 // nestedCall: does the expression text contain a call of fn whose argument text itself contains
 // a call of fn (f(... f(...) ...))?
 func nestedCall(expr, fn string) bool {
@@ -540,7 +545,6 @@ func nestedCall(expr, fn string) bool {
 		i = start
 	}
 }
-
 
 // consumingCursor: the loop-carried string φ named reg in block blk of fn is the not yet scanned
 // rest of a text: over every back edge it arrives as a proper suffix of itself that starts behind a
@@ -656,7 +660,6 @@ func consumingCursor(fn *ssa.Function, blk, reg string) bool {
 	}
 	return okAll && consumed > 0
 }
-
 
 // inductionPhi: the φ named reg in block blk of fn is an integer loop counter: a constant on the
 // entry edge, itself plus or minus a constant on every back edge.
